@@ -39,6 +39,11 @@ theorem tables_well_formed :
 
 theorem constructors_complete : classes.all ctorOkB = true := by decide
 
+/-- range handling has the expected shape, every positivity-guarded setter is run by the constructor, and at every
+rebuild inside a constructor the fields the inner function insists on are already positive -/
+theorem constructors_accept_valid_parameters :
+    classes.all (fun t => rangeShapeB t && ctorSetsPositiveB t && ctorPosCheck t t.ctor []) = true := by decide
+
 /-- laser_radius / laser_length setters of every profile notify the listeners (the Laser node rebuilds its segments) -/
 theorem geometry_changes_notify : profiles.all geometryCoveredB = true := by decide
 
